@@ -392,9 +392,10 @@ async def run_history(case):
             drv.fail("the stored index is not the accepted one", "stored_index_replaced")
         return drv
     finally:
-        with contextlib.suppress(Exception):
-            if drv.rc is not None:
-                await drv.rc.close()
+        for d in [drv] + list((drv.companion or {}).values()):
+            with contextlib.suppress(Exception):
+                if d.rc is not None:
+                    await d.rc.close()
         stopping = {"done": False}
 
         async def auto_release():
